@@ -49,9 +49,10 @@ VARIABLES
   next,         \* next request to be issued (requests are issued one after the other or concurrently)
   rst,          \* resetAllClients in progress: "idle" | "snap"
   snap,         \* its snapshot of the table
+  genDown,      \* genDown[g]: the connect attempt of call g was started while the backend was down
   faults
 
-vars == <<table, call, gens, callRes, alive, exited, created, up, rq, rqc, outcome, sawDown, next, rst, snap, faults>>
+vars == <<table, call, gens, callRes, alive, exited, created, up, rq, rqc, outcome, sawDown, next, rst, snap, genDown, faults>>
 
 Init ==
   /\ table = NoClient /\ call = 0 /\ gens = 0 /\ callRes = [g \in 1..MaxGens |-> Pending]
@@ -60,7 +61,7 @@ Init ==
   /\ rq = [r \in Reqs |-> "idle"] /\ rqc = [r \in Reqs |-> NoClient]
   /\ outcome = [r \in Reqs |-> "none"]
   /\ sawDown = [r \in Reqs |-> FALSE]
-  /\ next = 1 /\ rst = "idle" /\ snap = NoClient /\ faults = 0
+  /\ next = 1 /\ rst = "idle" /\ snap = NoClient /\ genDown = [g \in 1..MaxGens |-> FALSE] /\ faults = 0
 
 InFlight(r) == rq[r] \notin {"idle", "done"}
 \* every request in flight witnesses a fault
@@ -73,7 +74,7 @@ Issue(r) ==
   \* a loss that the proxy is still processing (client exited, entry not yet removed) counts:
   \* the request may meet the dying client - a short, bounded window
   /\ sawDown' = [sawDown EXCEPT ![r] = ~up \/ \E c \in Clients : exited[c]]
-  /\ UNCHANGED <<table, call, gens, callRes, alive, exited, created, up, rqc, outcome, rst, snap, faults>>
+  /\ UNCHANGED <<table, call, gens, callRes, alive, exited, created, up, rqc, outcome, rst, snap, genDown, faults>>
 
 (* getClient (upstream.go:214-233): hit -> send; miss -> LoadOrStore the call *)
 Lookup(r) ==
@@ -86,35 +87,45 @@ Lookup(r) ==
                    /\ rq' = [rq EXCEPT ![r] = "dial"] /\ rqc' = [rqc EXCEPT ![r] = gens + 1]
               ELSE /\ rq' = [rq EXCEPT ![r] = "waitcall"] /\ rqc' = [rqc EXCEPT ![r] = call]
                    /\ UNCHANGED <<call, gens>>
-  /\ UNCHANGED <<table, callRes, alive, exited, created, up, outcome, sawDown, next, rst, snap, faults>>
+  /\ UNCHANGED <<table, callRes, alive, exited, created, up, outcome, sawDown, next, rst, snap, genDown, faults>>
 
-(* a caller that found an existing call entry waits for it and takes its result *)
+(* a caller that found an existing call entry waits for it and takes its result; the shared attempt may  *)
+(* have been started while the backend was down (fail fast): that request witnesses the outage too       *)
 WaitCall(r) ==
   /\ rq[r] = "waitcall" /\ callRes[rqc[r]] # Pending
   /\ IF callRes[rqc[r]] = NoClient
        THEN /\ outcome' = [outcome EXCEPT ![r] = "err"] /\ rq' = [rq EXCEPT ![r] = "done"] /\ UNCHANGED rqc
        ELSE /\ rqc' = [rqc EXCEPT ![r] = callRes[rqc[r]]] /\ rq' = [rq EXCEPT ![r] = "send"] /\ UNCHANGED outcome
-  /\ UNCHANGED <<table, call, gens, callRes, alive, exited, created, up, sawDown, next, rst, snap, faults>>
+  /\ sawDown' = [sawDown EXCEPT ![r] = @ \/ genDown[rqc[r]]]
+  /\ UNCHANGED <<table, call, gens, callRes, alive, exited, created, up, next, rst, snap, genDown, faults>>
+
+(* the caller that stored the call starts to connect: whether the backend is reachable is decided now,    *)
+(* the attempt finishes later (DialEnd)                                                                    *)
+DialStart(r) ==
+  /\ rq[r] = "dial" /\ rq' = [rq EXCEPT ![r] = "dialing"]
+  /\ genDown' = [genDown EXCEPT ![rqc[r]] = ~up]
+  /\ UNCHANGED <<table, call, gens, callRes, alive, exited, created, up, rqc, outcome, sawDown, next, rst, snap, faults>>
 
 (* createClient (upstream.go:235-270) by the caller that stored the call    *)
 Dial(r) ==
-  /\ rq[r] = "dial"
+  /\ rq[r] = "dialing"
   /\ IF table # NoClient
        THEN \* somebody registered a client meanwhile
             /\ callRes' = [callRes EXCEPT ![rqc[r]] = table] /\ rqc' = [rqc EXCEPT ![r] = table]
             /\ rq' = [rq EXCEPT ![r] = "send"]
-            /\ UNCHANGED <<table, alive, created, outcome>>
-       ELSE IF up /\ created < MaxClients
+            /\ UNCHANGED <<table, alive, exited, created, outcome>>
+       ELSE IF ~genDown[rqc[r]] /\ created < MaxClients
               THEN /\ created' = created + 1
-                   /\ table' = created + 1 /\ alive' = [alive EXCEPT ![created + 1] = TRUE]
+                   /\ table' = created + 1 /\ alive' = [alive EXCEPT ![created + 1] = up]
+                   /\ exited' = [exited EXCEPT ![created + 1] = ~up]
                    /\ callRes' = [callRes EXCEPT ![rqc[r]] = created + 1] /\ rqc' = [rqc EXCEPT ![r] = created + 1]
                    /\ rq' = [rq EXCEPT ![r] = "send"] /\ UNCHANGED outcome
-              ELSE /\ ~up
+              ELSE /\ genDown[rqc[r]]
                    /\ callRes' = [callRes EXCEPT ![rqc[r]] = NoClient]
                    /\ outcome' = [outcome EXCEPT ![r] = "err"] /\ rq' = [rq EXCEPT ![r] = "done"]
-                   /\ UNCHANGED <<table, alive, created, rqc>>
+                   /\ UNCHANGED <<table, alive, exited, created, rqc>>
   /\ call' = IF FixCallEntry THEN 0 ELSE call
-  /\ UNCHANGED <<gens, exited, up, sawDown, next, rst, snap, faults>>
+  /\ UNCHANGED <<gens, up, sawDown, next, rst, snap, genDown, faults>>
 
 (* client.Send + the round trip: served if the client is alive, answered    *)
 (* with an error by Send / the drain if it has quit                         *)
@@ -122,14 +133,14 @@ SendAndReply(r) ==
   /\ rq[r] = "send"
   /\ outcome' = [outcome EXCEPT ![r] = IF alive[rqc[r]] THEN "ok" ELSE "err"]
   /\ rq' = [rq EXCEPT ![r] = "done"]
-  /\ UNCHANGED <<table, call, gens, callRes, alive, exited, created, up, rqc, sawDown, next, rst, snap, faults>>
+  /\ UNCHANGED <<table, call, gens, callRes, alive, exited, created, up, rqc, sawDown, next, rst, snap, genDown, faults>>
 
 (* environment: the connection of client c is lost (reset, backend restart) *)
 ConnLost(c) ==
   /\ alive[c] /\ faults < MaxFaults /\ faults' = faults + 1
   /\ alive' = [alive EXCEPT ![c] = FALSE] /\ exited' = [exited EXCEPT ![c] = TRUE]
   /\ sawDown' = Witness
-  /\ UNCHANGED <<table, call, gens, callRes, created, up, rq, rqc, outcome, next, rst, snap>>
+  /\ UNCHANGED <<table, call, gens, callRes, created, up, rq, rqc, outcome, next, rst, snap, genDown>>
 
 (* environment: the backend goes down (all its connections are lost) / comes back *)
 BackendDown ==
@@ -137,16 +148,16 @@ BackendDown ==
   /\ alive' = [c \in Clients |-> FALSE]
   /\ exited' = [c \in Clients |-> exited[c] \/ alive[c]]
   /\ sawDown' = Witness
-  /\ UNCHANGED <<table, call, gens, callRes, created, rq, rqc, outcome, next, rst, snap>>
+  /\ UNCHANGED <<table, call, gens, callRes, created, rq, rqc, outcome, next, rst, snap, genDown>>
 BackendUp ==
   /\ ~up /\ up' = TRUE
-  /\ UNCHANGED <<table, call, gens, callRes, alive, exited, created, rq, rqc, outcome, sawDown, next, rst, snap, faults>>
+  /\ UNCHANGED <<table, call, gens, callRes, alive, exited, created, rq, rqc, outcome, sawDown, next, rst, snap, genDown, faults>>
 
 (* the goroutine `c.Start(); u.removeClient(addr)` (upstream.go:263-268)     *)
 RemoveSelf(c) ==
   /\ exited[c] /\ exited' = [exited EXCEPT ![c] = FALSE]
   /\ table' = IF FixRemoveOwn /\ table # c THEN table ELSE NoClient
-  /\ UNCHANGED <<call, gens, callRes, alive, created, up, rq, rqc, outcome, sawDown, next, rst, snap, faults>>
+  /\ UNCHANGED <<call, gens, callRes, alive, created, up, rq, rqc, outcome, sawDown, next, rst, snap, genDown, faults>>
 
 (* OnHostReplace -> resetAllClients (upstream.go:290-302): snapshot of the    *)
 (* table, empty the table under the lock, then stop the clients of the      *)
@@ -155,7 +166,7 @@ ResetSnapshot ==
   /\ rst = "idle" /\ faults < MaxFaults /\ faults' = faults + 1
   /\ ~FixResetSnapshot
   /\ rst' = "snap" /\ snap' = table
-  /\ UNCHANGED <<table, call, gens, callRes, alive, exited, created, up, rq, rqc, outcome, sawDown, next>>
+  /\ UNCHANGED <<table, call, gens, callRes, alive, exited, created, up, rq, rqc, outcome, sawDown, next, genDown>>
 
 ResetSwap ==
   /\ \/ rst = "snap" /\ UNCHANGED faults
@@ -165,9 +176,9 @@ ResetSwap ==
        /\ exited' = [c \in Clients |-> IF c = old /\ alive[c] THEN TRUE ELSE exited[c]]
   /\ table' = NoClient /\ rst' = "idle" /\ snap' = NoClient
   /\ sawDown' = Witness
-  /\ UNCHANGED <<call, gens, callRes, created, up, rq, rqc, outcome, next>>
+  /\ UNCHANGED <<call, gens, callRes, created, up, rq, rqc, outcome, next, genDown>>
 
-ProxyNext == (\E r \in Reqs : Lookup(r) \/ WaitCall(r) \/ Dial(r) \/ SendAndReply(r)) \/ (\E c \in Clients : RemoveSelf(c))
+ProxyNext == (\E r \in Reqs : Lookup(r) \/ WaitCall(r) \/ DialStart(r) \/ Dial(r) \/ SendAndReply(r)) \/ (\E c \in Clients : RemoveSelf(c))
 EnvNext == (\E r \in Reqs : Issue(r)) \/ (\E c \in Clients : ConnLost(c)) \/ BackendDown \/ BackendUp \/ ResetSnapshot
 ResetNext == ResetSwap
 Next == ProxyNext \/ EnvNext \/ ResetNext
